@@ -336,6 +336,51 @@ func runC02(seed int64, n int, tier string, outDir string) (*Report, error) {
 		c02Native(it, out, rep, idx)
 		rep.Count("directed:re-serialised")
 	}
+	// directed: lists in which a member says nothing without being nil (an empty object, an empty list, an empty IRI),
+	// in every position of the list, in every list-valued and item-valued property of an object and an activity
+	{
+		a, b := ap.IRI("https://example.com/a"), ap.IRI("https://example.com/b")
+		silent := func() []ap.Item {
+			return []ap.Item{&ap.Object{}, ap.Object{}, ap.ItemCollection{}, ap.IRI(""), &ap.Activity{}, &ap.Link{}, ap.IRIs{}, ap.ItemCollection{&ap.Object{}}}
+		}
+		var lists []ap.ItemCollection
+		for _, e := range silent() {
+			lists = append(lists, ap.ItemCollection{a, e, b}, ap.ItemCollection{a, e}, ap.ItemCollection{e, a}, ap.ItemCollection{e}, ap.ItemCollection{e, e}, ap.ItemCollection{a, e, e, b})
+		}
+		k := 0
+		for _, l := range lists {
+			for _, mk := range []func(ap.ItemCollection) ap.Item{
+				func(l ap.ItemCollection) ap.Item {
+					return &ap.Object{ID: "https://example.com/o", Type: ap.NoteType, To: l}
+				},
+				func(l ap.ItemCollection) ap.Item {
+					return &ap.Object{ID: "https://example.com/o", Type: ap.NoteType, Tag: l, Attachment: l}
+				},
+				func(l ap.ItemCollection) ap.Item {
+					return &ap.Activity{ID: "https://example.com/c", Type: ap.CreateType, Object: l, CC: l}
+				},
+				func(l ap.ItemCollection) ap.Item {
+					return &ap.OrderedCollection{ID: "https://example.com/oc", Type: ap.OrderedCollectionType, OrderedItems: l}
+				},
+				func(l ap.ItemCollection) ap.Item {
+					return &ap.Collection{ID: "https://example.com/cc", Type: ap.CollectionType, Items: l}
+				},
+			} {
+				it := mk(l)
+				out, err := it.(json.Marshaler).MarshalJSON()
+				if err != nil {
+					rep.Violate(Violation{Op: "MarshalJSON", Input: CoqItem(it), Expected: "no error", Observed: err.Error()})
+				}
+				rep.Evaluations++
+				rep.Count("directed:list-with-silent-member")
+				if k%3 == 0 {
+					cw.Add("("+CoqItem(it)+", "+hxSum(out)+")", fmt.Sprintf("silent member %d", k))
+				}
+				c02Native(it, out, rep, 200000+k)
+				k++
+			}
+		}
+	}
 	// the public entry point (jsonld wrapper) must also produce valid JSON
 	for i := 0; i < n/10; i++ {
 		it := g.Struct(structTypes[i%len(structTypes)], opts)
